@@ -46,6 +46,9 @@ type mHost struct {
 type mCluster struct {
 	LB    string
 	Hosts []mHost
+	// MaxReq: the cluster's max_requests as the update history prescribes it (0 = no limit; -1 = delivered by a
+	// path whose defaults are the converter's own: not compared)
+	MaxReq int
 }
 
 type uModel struct {
@@ -491,12 +494,18 @@ func (w *Update) nextOp() {
 		lb := pickFrom(ch, "work", "clb", []v2.LbType{v2.LB_ROUNDROBIN, v2.LB_RANDOM})
 		c := v2.Cluster{Name: name, ClusterType: v2.SIMPLE_CLUSTER, LbType: lb, Hosts: genHosts(ch, 7)} // Hosts are documented to be ignored by this call
 		w.freshClusterTLS(&c)
-		desc += " " + name
+		// the cluster's circuit breaker comes and goes with its configuration (connection pools that exist
+		// already must see the limit that is in force)
+		cb := pickFrom(ch, "work", "cmaxreq", []int{0, 0, 1, 3})
+		if cb > 0 {
+			c.CirBreThresholds = v2.CircuitBreakers{Thresholds: []v2.Thresholds{{MaxRequests: uint32(cb)}}}
+		}
+		desc += fmt.Sprintf(" %s max_requests=%d", name, cb)
 		run = func() { _ = adapter.TriggerClusterAddOrUpdate(c) }
 		if old := m.Clusters[name]; old != nil {
-			old.LB = string(lb)
+			old.LB, old.MaxReq = string(lb), cb
 		} else {
-			m.Clusters[name] = &mCluster{LB: string(lb)}
+			m.Clusters[name] = &mCluster{LB: string(lb), MaxReq: cb}
 		}
 	case "cluster.updatehosts":
 		name := pickFrom(ch, "work", "cname", uClusters)
@@ -728,11 +737,11 @@ func (w *Update) nextOp() {
 			run = func() { w.cvt.ConvertUpdateClusters([]*envoy_cluster.Cluster{xc}) }
 			switch {
 			case static: // a cluster with its own endpoints replaces the hosts
-				m.Clusters[name] = &mCluster{LB: "LB_ROUNDROBIN", Hosts: toM(union)}
+				m.Clusters[name] = &mCluster{LB: "LB_ROUNDROBIN", Hosts: toM(union), MaxReq: -1}
 			case m.Clusters[name] != nil: // an EDS cluster keeps the hosts the endpoint service gave it
-				m.Clusters[name].LB = "LB_ROUNDROBIN"
+				m.Clusters[name].LB, m.Clusters[name].MaxReq = "LB_ROUNDROBIN", -1
 			default:
-				m.Clusters[name] = &mCluster{LB: "LB_ROUNDROBIN"}
+				m.Clusters[name] = &mCluster{LB: "LB_ROUNDROBIN", MaxReq: -1}
 			}
 		} else {
 			// ... together with (drawn) others it delivered: one removal batch. A cluster of the batch may be
@@ -1020,6 +1029,9 @@ func (w *Update) checkAfterOp(desc string) {
 			w.M.Clusters[name] = &mCluster{Hosts: live} // report once, then follow the system
 		case mc != nil && !ok:
 			s.Violate("C12", "cluster_missing", "cluster %s should exist; %s", name, hist)
+		case mc != nil && mc.MaxReq >= 0 && w.poolLimitDiffers(name, mc, live) != "":
+			s.Violate("C12", "live_limit_differs_from_updates", "cluster %s: %s; %s", name, w.poolLimitDiffers(name, mc, live), hist)
+			mc.MaxReq = -1 // report once
 		case mc != nil && !sameHosts(mc.Hosts, live):
 			cls := "live_hosts_differ_from_updates"
 			if strings.Contains(desc, "xds.endpoints") && strings.Contains(desc, name) {
@@ -1364,6 +1376,18 @@ func (w *Update) checkTraffic() {
 			}
 			continue
 		}
+		// (a cluster with a requests limit may refuse a request that meets others in flight: the overflow reply
+		// is the configuration at work, not the swap)
+		limited := false
+		for _, m := range over {
+			for _, c := range m.Clusters {
+				limited = limited || c.MaxReq != 0
+			}
+		}
+		if limited && rep.Tok == "" && rep.Status == 4 {
+			w.Stats["overflow_replies_under_a_limit"]++
+			continue
+		}
 		if allOK && len(over) > 0 {
 			s.Violate("C12", "request_failed_because_of_update", "req#%d (%s) got the error status %d although every configuration in force while it was in flight routes it to a cluster with hosts", r.Idx, r.Extra["svc"], rep.Status)
 		}
@@ -1371,6 +1395,22 @@ func (w *Update) checkTraffic() {
 }
 
 func (w *Update) OpLog() []string { return w.opLog }
+
+// poolLimitDiffers: the requests limit a connection pool that exists for one of the cluster's hosts sees (through
+// the host object it was created with) against the limit the update history prescribes for the cluster.
+func (w *Update) poolLimitDiffers(name string, mc *mCluster, live []mHost) string {
+	for _, h := range live {
+		p, ok := cluster.VerifConnPool("bolt", h.Addr).(types.ConnectionPool)
+		if !ok || p == nil || p.Host() == nil || p.Host().ClusterInfo() == nil || p.Host().ClusterInfo().Name() != name {
+			continue // no pool yet, or the pool of this address was created on behalf of another cluster
+		}
+		w.Stats["pool_limits_compared"]++
+		if got := p.Host().ClusterInfo().ResourceManager().Requests().Max(); got != uint64(mc.MaxReq) {
+			return fmt.Sprintf("the connection pool of %s sees max_requests=%d, the configuration in force says %d", h.Addr, got, mc.MaxReq)
+		}
+	}
+	return ""
+}
 
 // fxCalls: calls of the stream filter that only the refused listener update names
 func fxCalls() []FilterCall {
